@@ -16,6 +16,9 @@
 #ifndef HP_IT
 #define HP_IT 1
 #endif
+#ifndef HP_PREFILL
+#define HP_PREFILL 0
+#endif
 #ifndef HP_XC
 #define HP_XC 1
 #endif
@@ -72,13 +75,20 @@ void harness(void){
   matrix *x,*y; NewMatrix(&x,HP_N,HP_XC); NewMatrix(&y,HP_N,HP_NY);
   for(size_t i=0;i<HP_N;i++){ x->data[i][0]=(double)i; for(size_t c=1;c<HP_XC;c++) x->data[i][c]=in_double(-1e3,1e3); for(size_t c=0;c<HP_NY;c++){ Y[i][c]=in_double(-1e3,1e3); y->data[i][c]=Y[i][c]; } }
   MODELINPUT in; in.mx=x; in.my=y; in.nlv=HP_NLV; in.xautoscaling=0; in.yautoscaling=0;
-  matrix *py,*pres; initMatrix(&py); initMatrix(&pres);
+  matrix *py,*pres;
 #if HP_ALGO==0
   AlgorithmType algo=_MLR_; size_t cols=HP_NY; size_t nlv=1;
 #elif HP_ALGO==1
   AlgorithmType algo=_PLS_; size_t nlv=(HP_NLV>HP_XC)?HP_XC:HP_NLV; /* nlv is clamped to the number of predictors */ size_t cols=HP_NY*nlv;
 #else
   AlgorithmType algo=_LDA_; size_t cols=1; size_t nlv=1;
+#endif
+#if HP_PREFILL
+  /* outputs that already hold data of the final shape (a second validation run re-using its result matrices): the result must not depend on them */
+  NewMatrix(&py,HP_N,cols); NewMatrix(&pres,HP_N,cols);
+  for(size_t i=0;i<HP_N;i++)for(size_t c=0;c<cols;c++){ py->data[i][c]=in_double(-1e3,1e3); pres->data[i][c]=in_double(-1e3,1e3); }
+#else
+  initMatrix(&py); initMatrix(&pres);
 #endif
 #if HP_CV==0
   LeaveOneOut(&in, algo, py, pres, HP_T, NULL, 0);
